@@ -305,7 +305,8 @@ def case_layer(rnd, rho1, rho2, acc, sample=False, forced=None):
                 acc.count("layer_cases_with_100_or_more_listed_modules_and_prefix_sibling_packages")
             acc.count("layer_cases_with_100_or_more_listed_modules")
         prefer = None
-        if rnd.random() < 0.3:
+        if rnd.random() < 0.45:
+            flatten = rnd.random() < 0.6  # otherwise the same forced prefix siblings stay below the root package
             # an architecture that kept its external libraries: some packages are TOP-LEVEL modules (no dot in their
             # name), listed in layers like any other; one listed package with an unlisted sub module and one unlisted
             # top-level module become prefix siblings (a / ab) under the adversarial renaming
@@ -339,16 +340,48 @@ def case_layer(rnd, rho1, rho2, acc, sample=False, forced=None):
                 L1 = [k for k, v in layers.items() if t1 in v][0]
                 outside = [m for m in mods if any(is_ancestor(t, m) or t == m for k, v in layers.items() if k != L1 for t in v)]
                 kid = rnd.choice(kids)
+                # the longer-named sibling has an (unlisted) sub module of its own: 'app.dbx.model' next to the listed 'app.db'
+                kid2 = t2 + "." + rnd.choice(ABSTRACT)
+                if kid2 not in mods:
+                    mods = mods + [kid2]
                 # the unlisted sub module of the listed package and the unlisted top-level module import each other
                 # (access from the layer to something that is in no layer), and both deal with another layer
                 imps = imps + [rnd.choice([(kid, t2), (t2, kid)])]
-                for tgt in (kid, t2):
+                for tgt in (kid, t2, kid2):
                     if outside and rnd.random() < 0.6:
                         o_ = rnd.choice(outside)
                         if not related(o_, tgt):
                             imps = imps + [(o_, tgt) if rnd.random() < 0.5 else (tgt, o_)]
+                if not flatten and rnd.random() < 0.7:
+                    # one level down the same again, nested: the layer lists the package AND one of its sub packages
+                    # ('app' and 'app.db'); an unlisted module below a sibling whose name merely extends that sub package's
+                    # name ('app.dbx.model') belongs to the package's layer
+                    used = {t1.split(".")[1], t2.split(".")[1]}
+                    spare = [c for c in ABSTRACT if c not in used]
+                    if len(spare) >= 3:
+                        cx, cy, cz = rnd.sample(spare, 3)
+                        pairs_ = [("ab", "abc"), ("aa", "aab"), ("a_", "a_b"), ("ab", "ab_"), ("b", "ba")]
+                        v1, v2 = rnd.choice(pairs_)
+                        for comp, want in ((cx, v1), (cy, v2)):
+                            holder = [k for k, v in rho2.items() if v == want]
+                            if holder:
+                                rho2[holder[0]], rho2[comp] = rho2[comp], want
+                            else:
+                                rho2[comp] = want
+                        if rho2[t1.split(".")[1]] == "a" and len(set(rho2.values())) == len(rho2):
+                            nested_child, deep = f"{t1}.{cx}", f"{t1}.{cy}.{cz}"
+                            mods = mods + [m for m in (nested_child, f"{t1}.{cy}", deep) if m not in mods]
+                            if nested_child not in {m for v in layers.values() for m in v}:
+                                layers[L1] = layers[L1] + [nested_child]
+                            if outside:
+                                o_ = rnd.choice(outside)
+                                if not related(o_, deep):
+                                    imps = imps + [(o_, deep), (deep, o_)][: rnd.randint(1, 2)]
+                            acc.count("layer_cases_with_a_nested_listed_pair_and_a_name_extending_sibling")
                 acc.count("layer_cases_with_top_level_prefix_siblings")
                 prefer = L1
+            if not flatten:
+                flat = set()
             fl = lambda m: m[2:] if any(m == t or m.startswith(t + ".") for t in flat) else m  # noqa: E731
             mods = [fl(m) for m in mods]
             imps = sorted({(fl(a), fl(b)) for a, b in imps})
@@ -510,6 +543,8 @@ def floors(acc, tier):
             why.append(f"pairs with a prefix/substring collision for {k}: only {acc.counters[f'pairs_with_collision_{k}']}")
     if acc.counters["anything_batches_with_a_nested_pair_and_a_name_extending_sibling"] < 30:
         why.append("too few 'anything' batches over a nested pair plus a sibling whose name extends the parent's")
+    if acc.counters["layer_cases_with_a_nested_listed_pair_and_a_name_extending_sibling"] < 20:
+        why.append(f"only {acc.counters['layer_cases_with_a_nested_listed_pair_and_a_name_extending_sibling']} layer cases with a nested listed pair and a name-extending sibling")
     if acc.counters["layer_cases_with_top_level_prefix_siblings"] < 40:
         why.append(f"only {acc.counters['layer_cases_with_top_level_prefix_siblings']} layer cases with top-level prefix siblings")
     if acc.counters["scan_pairs_with_module_path_below_root"] < 10:
